@@ -1292,4 +1292,178 @@ theorem poolTick_raises_only_at_the_gates {cfg : Cfg} {w : Store} {p : Pool} {n 
         rw [hr]
         exact ⟨w6, p6, n2, res, rfl, r6⟩
 
+
+/-! ### when the gates let the commands through, the tick succeeds -/
+
+theorem startAll_no_error (cfg : Cfg) (w : Store) : ∀ (as : List Asg) (p : Pool) (n : Nat), (∀ a ∈ as, opCountOk cfg a = true) →
+    ∃ p' n', startAll cfg w p n as = .ok (p', n') := by
+  intro as
+  induction as with
+  | nil => intro p n _; exact ⟨p, n, rfl⟩
+  | cons a as ih =>
+    intro p n h
+    unfold startAll
+    simp only [h a (by simp), Bool.not_true, Bool.false_eq_true, ↓reduceIte]
+    exact ih _ _ (fun b hb => h b (List.mem_cons_of_mem _ hb))
+
+/-- **no suspensions, admissible assignments ⇒ the pool tick succeeds** (and the pool stays ready) -/
+theorem poolTick_succeeds_of_gates {cfg : Cfg} {w : Store} {p : Pool} {n : Nat} {asgs : List Asg}
+    (g : PoolGoodMem cfg p n) (rd : PoolReadyF cfg w p) (ha : AsgsReady w asgs) (hnd : (ownP p ++ asgs.flatMap (·.ops)).Nodup)
+    (hv : asgs.isEmpty = true ∨ verifyAssignments cfg p asgs = .ok ()) (hcnt : ∀ a ∈ asgs, opCountOk cfg a = true) :
+    ∃ w' p' n' res, poolTick cfg w p n { susp := [], asgs := asgs } = .ok (w', p', n', res) ∧ PoolReadyF cfg w' p' := by
+  rcases poolTick_raises_only_at_the_gates (cm := { susp := [], asgs := asgs }) g rd ha (by simp) hnd with h | ⟨e, st, h, _⟩
+  · exact h
+  · exfalso
+    unfold poolTick at h
+    simp only [List.isEmpty_nil, ↓reduceIte] at h
+    have hva : (if asgs.isEmpty then (Except.ok () : Except Err Unit) else verifyAssignments cfg p asgs) = .ok () := by
+      rcases hv with hv | hv
+      · simp [hv]
+      · split
+        · rfl
+        · exact hv
+    rw [hva] at h
+    simp only at h
+    obtain ⟨p2, n2, hs⟩ := startAll_no_error cfg w asgs p n hcnt
+    rw [hs] at h
+    simp only at h
+    split at h
+    · cases h
+    · cases h
+
+/-! ### all pools -/
+
+theorem poolReadyF_frame {cfg : Cfg} {s s1 : Store} {q : Pool} (h : PoolReadyF cfg s q) (hs : Steps s s1)
+    (hf : ∀ o ∈ ownP q, s1.stOf o = s.stOf o) : PoolReadyF cfg s1 q := by
+  have hact : ∀ o ∈ own q.active, o ∈ ownP q := fun o ho => by simp only [ownP, own_append, List.mem_append]; exact Or.inl ho
+  have hsus : ∀ o ∈ own q.suspending, o ∈ ownP q := fun o ho => by simp only [ownP, own_append, List.mem_append]; exact Or.inr ho
+  refine ⟨⟨poolLive_frame h.rd.live hf, readyAll_frame h.rd.act hs (fun o ho => hf o (hact o ho)), ?_⟩, h.flag⟩
+  intro c hc o ho
+  obtain ⟨b1, b2⟩ := h.rd.sus c hc o ho
+  have hcn := h.rd.live.nc c (List.mem_append_right _ hc)
+  exact ⟨by rw [hs.size]; exact b1, by rw [hf o (hsus o (mem_own hc hcn ho))]; exact b2⟩
+
+/-- the loop invariant of `execPools`, with readiness -/
+structure PoolsReady (cfg : Cfg) (asgs : List Asg) (s : Store) (n : Nat) (done todo : List Pool) : Prop where
+  live : PoolsLive cfg asgs s n done todo
+  rdy : ∀ p ∈ done ++ todo, PoolReadyF cfg s p
+  par : ∀ a ∈ pendFor asgs done.length, a.ops ≠ [] ∧ ParentsOK s a.ops ∧ ∀ r ∈ a.ops, r < s.st.size
+
+theorem poolsReady_step {cfg : Cfg} {sus : List (Nat × Nat)} {asgs : List Asg} {s s1 : Store} {n n1 : Nat} {done rest : List Pool} {p p1 : Pool} {r : List Res}
+    (hJ : PoolsReady cfg asgs s n done (p :: rest)) (hp : poolTick cfg s p n (cmdsFor done.length sus asgs) = .ok (s1, p1, n1, r))
+    (r1 : PoolReadyF cfg s1 p1) : PoolsReady cfg asgs s1 n1 (done ++ [p1]) rest := by
+  obtain ⟨l1, hn1, fr⟩ := poolsLive_step hJ.live hp
+  have hst : Steps s s1 := poolTick_steps_ok hp
+  refine ⟨l1, ?_, ?_⟩
+  · intro q hq
+    have hq' : q ∈ done ∨ q = p1 ∨ q ∈ rest := by simpa [List.mem_append, or_assoc] using hq
+    rcases hq' with hq' | rfl | hq'
+    · refine poolReadyF_frame (hJ.rdy q (by simp [hq'])) hst (fun o ho => fr o ?_)
+      have := count_le_flatMap ownP done q hq' o
+      have : 1 ≤ (ownP q).count o := List.one_le_count_iff.mpr ho
+      omega
+    · exact r1
+    · refine poolReadyF_frame (hJ.rdy q (by simp [hq'])) hst (fun o ho => fr o ?_)
+      have := count_le_flatMap ownP rest q hq' o
+      have : 1 ≤ (ownP q).count o := List.one_le_count_iff.mpr ho
+      omega
+  · simp only [List.length_append, List.length_cons, List.length_nil, Nat.zero_add]
+    intro a ha'
+    obtain ⟨ha1, ha2⟩ := List.mem_filter.mp ha'
+    have hle : done.length + 1 ≤ a.pool := by simpa using ha2
+    obtain ⟨y1, y2, y3⟩ := hJ.par a (List.mem_filter.mpr ⟨ha1, by simp only [decide_eq_true_eq]; omega⟩)
+    exact ⟨y1, parentsOK_frame y2 hst.ops (fun q hq => completed_final hst q hq), fun r hr => by rw [hst.size]; exact y3 r hr⟩
+
+theorem poolsReady_head {cfg : Cfg} {sus : List (Nat × Nat)} {asgs : List Asg} {s : Store} {n : Nat} {done rest : List Pool} {p : Pool}
+    (hJ : PoolsReady cfg asgs s n done (p :: rest)) :
+    AsgsReady s (cmdsFor done.length sus asgs).asgs ∧ (ownP p ++ (cmdsFor done.length sus asgs).asgs.flatMap (·.ops)).Nodup := by
+  obtain ⟨hnd, haok, hsub⟩ := poolsLive_head (sus := sus) hJ.live
+  refine ⟨?_, hnd⟩
+  intro a haa
+  obtain ⟨x1, x2⟩ := haok a haa
+  obtain ⟨y1, y2, y3⟩ := hJ.par a (hsub a haa)
+  exact ⟨y1, x1, fun r hr => ⟨(x2 r hr).1, (x2 r hr).2, y3 r hr⟩, y2⟩
+
+/-- **no suspensions and admissible assignments for every pool ⇒ the loop over the pools succeeds** -/
+theorem execPools_succeeds_of_gates (cfg : Cfg) (asgs : List Asg) (hcnt : ∀ a ∈ asgs, opCountOk cfg a = true) :
+    ∀ (todo : List Pool) (s : Store) (n : Nat) (done : List Pool) (res : List Res), PoolsReady cfg asgs s n done todo →
+    (∀ k p, todo[k]? = some p → (asgs.filter (·.pool == done.length + k)).isEmpty = true ∨
+        verifyAssignments cfg p (asgs.filter (·.pool == done.length + k)) = .ok ()) →
+    ∃ s' ps n' res', execPools cfg [] asgs s n done todo res = .ok (s', ps, n', res') ∧ PoolsReady cfg asgs s' n' ps [] := by
+  intro todo
+  induction todo with
+  | nil => intro s n done res hJ _; exact ⟨s, done, n, res, rfl, hJ⟩
+  | cons p rest ih =>
+    intro s n done res hJ hv
+    obtain ⟨gp, _⟩ := hJ.live.pools p (by simp)
+    obtain ⟨ha, hnd⟩ := poolsReady_head (sus := []) hJ
+    have hcm : cmdsFor done.length [] asgs = { susp := [], asgs := asgs.filter (·.pool == done.length) } := rfl
+    rw [hcm] at ha hnd
+    obtain ⟨s1, p1, n1, r, hp, r1⟩ := poolTick_succeeds_of_gates gp (hJ.rdy p (by simp)) ha hnd
+      (by have := hv 0 p (by simp); simpa using this) (fun a haa => hcnt a (List.mem_filter.mp haa).1)
+    have hp' : poolTick cfg s p n (cmdsFor done.length [] asgs) = .ok (s1, p1, n1, r) := by rw [hcm]; exact hp
+    have hJ1 := poolsReady_step hJ hp' r1
+    obtain ⟨s', ps, n', res', h2, r2⟩ := ih s1 n1 (done ++ [p1]) (res ++ r) hJ1 (by
+      intro k q hq
+      have := hv (k + 1) q (by simpa using hq)
+      simp only [List.length_append, List.length_cons, List.length_nil, Nat.zero_add]
+      have e : done.length + 1 + k = done.length + (k + 1) := by omega
+      rw [e]; exact this)
+    refine ⟨s', ps, n', res', ?_, r2⟩
+    unfold execPools; rw [hp']; exact h2
+
+/-- **the executor's loop over the pools raises only at a pool's gates** -/
+theorem execPools_raises_only_at_the_gates (cfg : Cfg) (sus : List (Nat × Nat)) (asgs : List Asg)
+    (hsus : ∀ i, ((sus.filter (·.1 == i)).map (·.2)).Nodup) :
+    ∀ (todo : List Pool) (s : Store) (n : Nat) (done : List Pool) (res : List Res), PoolsReady cfg asgs s n done todo →
+    (∃ s' ps n' res', execPools cfg sus asgs s n done todo res = .ok (s', ps, n', res') ∧ PoolsReady cfg asgs s' n' ps []) ∨
+    (∃ e st, execPools cfg sus asgs s n done todo res = .error (e, some st) ∧ e.isGate = true) := by
+  intro todo
+  induction todo with
+  | nil => intro s n done res hJ; exact Or.inl ⟨s, done, n, res, rfl, hJ⟩
+  | cons p rest ih =>
+    intro s n done res hJ
+    obtain ⟨gp, _⟩ := hJ.live.pools p (by simp)
+    obtain ⟨hnd, haok, hsub⟩ := poolsLive_head (sus := sus) hJ.live
+    have ha : AsgsReady s (cmdsFor done.length sus asgs).asgs := by
+      intro a haa
+      obtain ⟨x1, x2⟩ := haok a haa
+      obtain ⟨y1, y2, y3⟩ := hJ.par a (hsub a haa)
+      exact ⟨y1, x1, fun r hr => ⟨(x2 r hr).1, (x2 r hr).2, y3 r hr⟩, y2⟩
+    rcases poolTick_raises_only_at_the_gates gp (hJ.rdy p (by simp)) ha (hsus done.length) hnd with ⟨s1, p1, n1, r, hp, r1⟩ | ⟨e, st, hp, hg⟩
+    · -- the pool ticked; go on with the rest
+      obtain ⟨l1, hn1, fr⟩ := poolsLive_step hJ.live hp
+      have hst : Steps s s1 := poolTick_steps_ok hp
+      have hglob := (nodup_iff_count_le_one _).mp hJ.live.nd
+      have hJ1 : PoolsReady cfg asgs s1 n1 (done ++ [p1]) rest := by
+        refine ⟨l1, ?_, ?_⟩
+        · intro q hq
+          have hq' : q ∈ done ∨ q = p1 ∨ q ∈ rest := by simpa [List.mem_append, or_assoc] using hq
+          rcases hq' with hq' | rfl | hq'
+          · refine poolReadyF_frame (hJ.rdy q (by simp [hq'])) hst (fun o ho => fr o ?_)
+            have := count_le_flatMap ownP done q hq' o
+            have : 1 ≤ (ownP q).count o := List.one_le_count_iff.mpr ho
+            omega
+          · exact r1
+          · refine poolReadyF_frame (hJ.rdy q (by simp [hq'])) hst (fun o ho => fr o ?_)
+            have := count_le_flatMap ownP rest q hq' o
+            have : 1 ≤ (ownP q).count o := List.one_le_count_iff.mpr ho
+            omega
+        · simp only [List.length_append, List.length_cons, List.length_nil, Nat.zero_add]
+          intro a ha'
+          obtain ⟨ha1, ha2⟩ := List.mem_filter.mp ha'
+          have hle : done.length + 1 ≤ a.pool := by simpa using ha2
+          obtain ⟨y1, y2, y3⟩ := hJ.par a (List.mem_filter.mpr ⟨ha1, by simp only [decide_eq_true_eq]; omega⟩)
+          exact ⟨y1, parentsOK_frame y2 hst.ops (fun q hq => completed_final hst q hq), fun r hr => by rw [hst.size]; exact y3 r hr⟩
+      rcases ih s1 n1 (done ++ [p1]) (res ++ r) hJ1 with ⟨s', ps, n', res', h2, r2⟩ | ⟨e, st, h2, hg⟩
+      · left
+        refine ⟨s', ps, n', res', ?_, r2⟩
+        unfold execPools; rw [hp]; exact h2
+      · right
+        refine ⟨e, st, ?_, hg⟩
+        unfold execPools; rw [hp]; exact h2
+    · right
+      obtain ⟨s1, p1, n1⟩ := st
+      exact ⟨e, (s1, done ++ p1 :: rest, n1), by unfold execPools; rw [hp], hg⟩
+
 end Eudoxia
